@@ -3,7 +3,8 @@ CLAIMS["C08"] = dict(
     category="model_checking",
     technique="TLA+ spec Registry.tla: TLC exhaustive + replay of all bounded paths into real RegisteredDecoys + trace validation of random real histories",
     text="Registry.tla models decoys/decoysTimeouts with one action per locked method; TLC checks PostSweepExact, "
-         "OneRecordPerRegistration, NeverRemovedEarly exhaustively (2 secrets x 2 phantoms x 2 transports, <=2..3 tracked). "
+         "OneRecordPerRegistration, NeverRemovedEarly, OnlyIngestAdds (MarkActive through the stale handle of a swept registration "
+         "changes nothing) exhaustively (2 secrets x 2 phantoms x 2 transports, <=2..3 tracked). "
          "Every path of depth 4 (quick) / 5 (thorough) plus thousands of simulated depth-16 behaviours are replayed on the "
          "real object with real transports and default lifetimes (state compared after every step), and random real "
          "histories over 8 secrets x 3 phantoms x 3 transports are validated against the spec with all invariants on.",
